@@ -36,7 +36,7 @@ CHECKS = {
     ),
     "C09": dict(
         engine="E2-product", category="exploration",
-        text="Every composition of 2 (all) / 3 (<= 2 reads, <= 1-2 writes) polynomial harness disciplines over a 4-name pool (closed under renaming, hence every sort order of the names) is built as every process kind that gives it a meaning (MDOChain, MDOParallelChain, MDOAdditiveChain, MDAChain, nestings) with dense / csr / operator Jacobians and sizes in {1,2}, and linearized through every singleton / full (thorough: every subset) request and two-request histories on the same process (subset->all, all->subset at a moved point, singleton pairs, re-execution after moving one input); every returned block is compared exactly with an independent forward accumulation of the exact partials.",
+        text="Every composition of 2 (all) / 3 (<= 2 reads, <= 1-2 writes) polynomial harness disciplines over a 4-name pool (closed under renaming, hence every sort order of the names) is built as every process kind that gives it a meaning (MDOChain, MDOParallelChain, MDOAdditiveChain, MDAChain, nestings) with dense / csr / operator Jacobians and sizes in {1,2}, and linearized through every singleton / full (thorough: every subset) request and two-request histories on the same process (subset->all, all->subset at a moved point, singleton pairs, re-execution after moving one input); every returned block is compared exactly with an independent forward accumulation of the exact partials.  Plus sharing histories: discipline instances shared with a second process (twin, reversed chain, parallel chain, sub-chain) that executes or linearizes at another point between two steps of the first one, a sub-discipline executed or linearized on its own between the process's execution and its linearization, and one instance at several positions of an MDOChain; every Jacobian returned by either process is compared with the chain rule at the requested point.",
         note="Integer value alphabet (3 tables by VERIF_SEED, 2 points) so comparisons are exact; request histories on renaming-class representatives; MDAChain on acyclic single-writer compositions; no operators under MDOAdditiveChain; thread-based kinds run free (their schedules are C13's subject).",
         technique="bounded-exhaustive product of structural axes, exact forward-accumulation oracle",
     ),
